@@ -30,6 +30,13 @@ def run(R, ctx):
     open_flags(R, ctx)
     start_index(R, ctx)
     start_table(R, ctx)
+    format_agreement(R, ctx)
+    if ctx.has('compress'):
+        # the cleanup that runs at every start must not destroy earlier runs' records: a rotated file is removed only after its complete .gz
+        # was written in the same step (shared with R07.2)
+        R.rule('R06.9', 'compression at (re)start: the original is removed only after its .gz was completely written in this step (shared with R07.2)')
+        import c07 as _c07
+        _c07.classification(_Fwd(R, 'R06.9', want=('R07.2',)), ctx)
     collision_table(R, ctx)
     c01.collision_rules(_As(R, 'R06.4'), ctx)      # every timestamp name that is opened with truncation / renamed to passes the collision test
     c01.index_table(_As(R, 'R06.6'), ctx)
@@ -59,6 +66,7 @@ def open_flags(R, ctx, rule='R06.1'):
     rows = I.run(b.path)
     seen = set()
     bad = None
+    n_ret = 0
     for r in rows:
         if r.undecided:
             R.bad(rule, f"{b.path}|flags", f"UNDECIDED {r.undecided}", where=b.loc())
@@ -86,6 +94,24 @@ def open_flags(R, ctx, rule='R06.1'):
         path = r.long(opened[0][1][1])
         if 'as_pathbuf' not in path or 'config.file_spec' not in path:
             bad = f"the opened path is {path[:100]}, not as_pathbuf of the configured spec"
+        # the path handed back (stored in the active state: reopen_output, the symlink and existing_log_files use it) is the very path that was
+        # opened - not a resolved / absolute / otherwise rewritten variant of it
+        if isinstance(r.result, Agg) and r.result.variant == 'Ok' and r.result.fields and isinstance(r.result.fields[0], Agg):
+            sel = ok_payload_selectors(f, b, {'path': r'PathBuf$'})['path']
+            pay = r.result.fields[0]
+            if sel.isdigit():
+                pv = pay.fields[int(sel)]
+            else:
+                names = [fd['name'] for fd in f.adts[pay.adt]['variants'][0]['fields']]
+                pv = pay.fields[names.index(sel)]
+            n_ret += 1
+            given = re.sub(r'[&$*]|\.clone\(\)|<[^<>]*as std::clone::Clone>::clone', '', repr(pv))
+            opened_p = re.sub(r'[&$*]', '', opened[0][1][1])
+            if not re.fullmatch(r'[\w:<> ,]*as_pathbuf#\d+', given.strip('()')) or given.strip('()') != opened_p.strip('()'):
+                bad = f"the path returned for the opened file is {given[:120]}, the path opened is {opened_p[:80]}: the stored path of the active state is not the configured path " \
+                      "(reopen_output re-creates the file somewhere else once a directory link is re-pointed; the listing and the symlink disagree with the configured name)"
+    if not bad and not n_ret:
+        raise CheckError(f"{rule}: Ok payload of open_log_file not recognised")
     R.check(rule, f"{b.path}|flags", not bad and seen >= {True, False}, "write, create, append = config.append, truncate = !config.append",
             f"open_log_file: {bad or 'append flag not examined: rows ' + str(seen)}", where=b.loc(), sample={'rows': len(rows)})
 
@@ -156,7 +182,7 @@ def start_index(R, ctx):
             where=lb.loc())
 
 
-def start_table(R, ctx):
+def start_table(R, ctx, restart_sibling_clause=True):
     f = ctx.f
     b = ctx.body(r'::State::initialize_with_rotation$')
     rows = c01.init_rows(ctx)
@@ -239,7 +265,9 @@ def start_table(R, ctx):
                         f28.add(nm)
         R.check('R06.3', f"{b.path}|start|{key[0]}|{key[1]}", not bad, f"{len(lst)} rows agree", f"start with naming {key[0]}" + (f"(current_infix {key[1]})" if key[1] else '') + f": {bad}",
                 where=b.loc(), sample={'naming': key, 'rows': len(lst)})
-    if f28:
+    if not restart_sibling_clause:
+        pass        # a matter of C06 / C11 (which file of the newest second is continued), not of the sharing property
+    elif f28:
         R.bad('R06.3', 'direct-timestamp-append-ignores-restart-siblings',
               f"start with append and direct timestamp naming ({sorted(f28)}): the file continued is named infix_from_timestamp(latest_timestamp_file(..)) - the parsed timestamp of the newest "
               "file only, so the base file `<ts>` of that second is re-opened although newer `<ts>.restart-NNNN` siblings exist: the new records are appended to a file that sorts "
@@ -400,3 +428,77 @@ def listing_predicates(R, ctx):
             R.check('R06.7', f"{b.path}|filter", uses_ts, "lists with Timstmps(format)",
                     "latest_timestamp_file lists the earlier files with the constant number filter (InfixFilter::Numbrs) instead of the timestamp filter of the configured format: "
                     "with a custom format not starting with `r`+digit and append, the earlier file is never continued", where=b.loc(bb))
+
+
+def format_agreement(R, ctx, rule='R06.3'):
+    """one timestamp format per logger: at start, every helper that derives or parses a file-name timestamp (the left-over current file that is
+    rotated away, the latest file that is continued, the first direct file) is given the SAME InfixFormat that is stored in the naming state -
+    the stored one names every later rotation and selects the family in listings and cleanup."""
+    from fdi import Agg
+    f = ctx.f
+    b = ctx.body(r'::State::initialize_with_rotation$')
+
+    def walk(v):
+        if isinstance(v, Agg):
+            yield v
+            for x in v.fields:
+                yield from walk(x)
+
+    norm = lambda s: re.sub(r'[&$*]', '', str(s))
+    bad = None
+    n = 0
+    for r in c01.init_rows(ctx):
+        if r.undecided or not (isinstance(r.result, Agg) and r.result.variant == 'Ok'):
+            continue
+        nm = r.get('variant(rotate_config.naming)')
+        if not nm or not nm.startswith('Timestamps'):
+            continue
+        ns = [a for a in walk(r.result) if str(a.adt).endswith('NamingState')]
+        if len(ns) != 1:
+            raise CheckError(f"{rule}: naming state not found in the value returned by {b.path} (form not recognised)")
+        flds = [fl['name'] for v in f.adts[ns[0].adt]['variants'] if v['name'] == ns[0].variant for fl in v['fields']]
+        idx = [i for i, fl in enumerate(flds) if fl == 'infix_format']
+        if not idx:
+            idx = [i for v in f.adts[ns[0].adt]['variants'] if v['name'] == ns[0].variant for i, fl in enumerate(v['fields']) if 'InfixFormat' in fl['ty']]
+        if len(idx) != 1:
+            raise CheckError(f"{rule}: format field of the naming state not found")
+        stored = norm(repr(ns[0].fields[idx[0]]))
+        for e in r.effects:
+            cb = f.bodies.get(e[0])
+            if cb is None:
+                continue
+            pi = [i for i, l in enumerate(cb.locals[1:cb.arg_count + 1]) if 'InfixFormat' in l['ty']]
+            if len(pi) != 1 or pi[0] >= len(e[1]):
+                continue
+            n += 1
+            given = norm(e[1][pi[0]])
+            if given != stored:
+                cur = r.get('variant(rotate_config.naming.current_infix)')
+                bad = f"start with naming {nm}" + (f"(current_infix {cur})" if nm == 'TimestampsCustomFormat' else '') + f": {e[0].split('::')[-1]} is given the format {given}, " \
+                      f"the naming state stores {stored}: files named at start do not carry the format that later rotations, the listing and the cleanup use"
+    R.check(rule, f"{b.path}|one-timestamp-format", not bad and n >= 4, f"{n} format arguments at start agree with the stored format", f"{bad}", where=b.loc())
+
+
+class _Fwd:
+    """forward only the obligations of the wanted source rules of another property's module under this property's rule id"""
+
+    def __init__(self, R, to, want):
+        self.R, self.to, self.want = R, to, want
+        self.stats = R.stats
+        self.known = {}
+
+    def rule(self, *a, **kw):
+        pass
+
+    def check(self, rule, *a, **kw):
+        if rule in self.want:
+            return self.R.check(self.to, *a, **kw)
+        return a[1] if len(a) > 1 else True
+
+    def bad(self, rule, *a, **kw):
+        if rule in self.want:
+            return self.R.bad(self.to, *a, **kw)
+
+    def ok(self, rule, *a, **kw):
+        if rule in self.want:
+            return self.R.ok(self.to, *a, **kw)
